@@ -231,6 +231,17 @@ Definition perfect (fuel : nat) (P : program) (edb : db) (rels : list rel) : db 
 
 Definition rel_seq (n : nat) : list rel := map N.of_nat (seq 0 n).
 
+(* Stored facts of a relation that also has rules (engine behaviour, src/lib.rs execution of
+   rule heads): they are the implicit base of the relation only when EVERY clause of the
+   relation is self-recursive; as soon as one clause is not, the rule results shadow the
+   stored facts completely.  `eff_base` keeps the stored facts that are part of the relation. *)
+Definition self_recursive (c : clause) : bool :=
+  existsb (fun l => match l with LPos a => N.eqb (arel a) (arel (chead c)) | _ => false end) (cbody c).
+Definition shadowed (P : program) (r : rel) : bool :=
+  existsb (fun c => N.eqb (arel (chead c)) r && negb (self_recursive c)) P.
+Definition eff_base (P : program) (base : db) : db :=
+  map (fun e => if shadowed P (fst e) then (fst e, []) else e) base.
+
 (* layering: positive dependencies on relations <= head, negative on relations < head *)
 Definition lit_layered (h : rel) (l : literal) : bool :=
   match l with
